@@ -702,6 +702,43 @@ pub fn check(ctx: &mut Ctx, id: &'static str) {
     ctx.random("dense-ast-documents", 300, q, th, |t| gen_ast_dense(t, which), |c, obs| oracle_ast(c, which, obs));
     ctx.reshrink::<AstCase, _, _>("dense-ast-documents", |c, obs| oracle_ast(c, which, obs), shrink_ast);
     ctx.random("junk-soup", 200, q, th, |t| junkgen::gen_soup(t, junkgen::JUNK_DELIMS, true), |c, obs| oracle_junk(c, which, obs));
+    // hand-built documents judged by the reference model: (a) many tag-like tokens that are never closed (unregistered
+    // openers, stray closers, ordinary comments that look like tags) in front of / around ready and pending elements;
+    // (b) elements that are NOT ready for a near-miss reason (the other quote character inside a value, a value that
+    // merely begins with a target / a date)
+    {
+        let mut cases: Vec<JunkCase> = vec![];
+        for (ds, de) in [("<", ">"), ("<!-- <", "> -->"), ("<!--", "-->")] {
+            let mut cfg = Cfg::simple(ds, de);
+            cfg.targets = vec!["a".into(), "feature1".into()];
+            let tag = |body: &str| format!("{ds}{body}{de}");
+            let body = format!("x\n{}\nREADY\n{}\ny\n{}\nPENDING\n{}\nz {}inline{} w\n", tag("rm name='a'"), tag("/rm"), tag("rm name='zz'"), tag("/rm"), tag("tl to=\"2001-01-01 00:00:00\""), tag("/tl"));
+            for k in [3usize, 40, 63, 64, 65, 130, 300] {
+                for junk in [tag("note"), tag("/stray"), tag("zz c='open'"), tag(" just a comment "), tag("tl")] {
+                    let head = format!("{junk}\n").repeat(k);
+                    cases.push(JunkCase { src: format!("{head}{body}"), cfg: cfg.clone() });
+                    cases.push(JunkCase { src: format!("{body}{head}{body}"), cfg: cfg.clone() });
+                }
+            }
+            for near in ["rm name=\"a's\"", "rm name='a\"s'", "rm name=\"feature1's\"", "rm name=\"a b\"", "rm name='a,feature1'", "tl to=\"2001-01-01 00:00:00'ish\"", "tl to='2001-01-01 00:00:00\" x'", "tl to=\"2001-01-01 00:00:00 \"", "rm nam='a'", "rm name=\"A\"", "rm c=\"name='a'\"", "rm name=\"a\" skip", "rm skip name='a'", "rmx name='a'", "r name='a'"] {
+                let close = format!("/{}", near.split(' ').next().unwrap());
+                cases.push(JunkCase { src: format!("p{}Q{}r", tag(near), tag(&close)), cfg: cfg.clone() });
+                cases.push(JunkCase { src: format!("p\n  {}\n  Q\n  {}\nr\n", tag(near), tag(&close)), cfg: cfg.clone() });
+                cases.push(JunkCase { src: format!("p\n{}\nif (x) {{\n  Q\n}}\n{}\nr\n", tag(&format!("{near} unwrap-block")), tag(&close)), cfg: cfg.clone() });
+            }
+        }
+        let n = cases.len();
+        ctx.exhaustive("built-documents", &format!("{n} hand-built documents: 3..300 never-closed tag-like tokens around ready / pending elements; elements that miss readiness narrowly (other quote inside a value, prefix of a target or of a date, look-alike names)"), cases.chunks(20).map(|c| c.to_vec()).collect(), move |cs, obs| {
+            for c in cs {
+                obs.eval();
+                if let Verdict::Fail(m) = oracle_junk_mode(c, which, obs, true) {
+                    let small = JunkCase { src: truncate(&c.src, 700), cfg: c.cfg.clone() };
+                    return Some(fail_case("built-documents", &small, truncate(&m, 900)));
+                }
+            }
+            None
+        });
+    }
     let mo = {
         let mut o = ast_opts(Which::C02);
         o.max_top = 4;
